@@ -1,4 +1,5 @@
-"""Per-property configuration of bin/check."""
+"""Per-property configuration of bin/check: one JSON fragment per property in bin/props.d/."""
+import json, os
 
 ALLOWED_AXIOMS = {
     # standard-library axioms (named in DESIGN.md §9 if they ever appear)
@@ -14,10 +15,9 @@ TRUSTED_BASE = [
     "no extraction is used",
 ]
 
-PROPS = {
-    "C38": dict(family="config", run_module="RunConfig",
-                level_text="Theorem C38_iff: the model of Validate returns no error iff the topology is well-formed (all list lengths, all ids, all byte-string templates), plus soundness of the reported error class; the model is tied to config.File.Validate by an exhaustive small-scope grid and random larger topologies evaluated in Coq.",
-                level_note="Model of Validate is hand-written (Model/Config.v); Go's strings.TrimSpace/Contains are modelled on byte strings; correspondence is differential testing.",
-                assumptions=["templates are byte strings; Unicode white space is the set listed in Model/Config.v:ws_len",
-                             "ids are unbounded naturals in the model (uint64 in the code; no arithmetic is performed on them)"]),
-}
+_D = os.path.join(os.path.dirname(os.path.abspath(__file__)), "props.d")
+PROPS = {}
+for _fn in sorted(os.listdir(_D)):
+    if _fn.endswith(".json"):
+        _j = json.load(open(os.path.join(_D, _fn)))
+        PROPS[_j["id"]] = _j
